@@ -2753,8 +2753,11 @@ impl<'a> Visitor<'a, '_, Error> for JSONValidator<'a> {
         Ok(())
       }
       Value::Number(n) => {
-        if is_ident_uint_data_type(self.state.cddl, ident) && n.is_u64() {
-          return Ok(());
+        if is_ident_uint_data_type(self.state.cddl, ident) {
+          // a negative integer must not fall through to the generic integer check below
+          if n.is_u64() {
+            return Ok(());
+          }
         } else if is_ident_nint_data_type(self.state.cddl, ident) {
           if let Some(n) = n.as_i64() {
             if n.is_negative() {
@@ -2782,9 +2785,10 @@ impl<'a> Visitor<'a, '_, Error> for JSONValidator<'a> {
           }
         } else if let Some(kind) = ident_numeric_kind(self.state.cddl, ident) {
           let matches_kind = match kind {
-            NumericKind::Int => n.is_i64(),
+            // is_i64 is false for integers above i64::MAX, which are still integers
+            NumericKind::Int => n.is_i64() || n.is_u64(),
             NumericKind::Float => n.is_f64(),
-            NumericKind::Both => n.is_i64() || n.is_f64(),
+            NumericKind::Both => n.is_i64() || n.is_u64() || n.is_f64(),
           };
           if matches_kind {
             return Ok(());
